@@ -1103,6 +1103,19 @@ func ruleV7(c *Ctx) {
 				if isNilConst(v) {
 					continue
 				}
+				isValue := func(x ssa.Value) bool {
+					fa, ok := x.(*ssa.FieldAddr)
+					return ok && fa.X == ssa.Value(g.Params[0]) && fieldName(fa.X.Type(), fa.Field) == "Value"
+				}
+				// a helper that returns the address of (a copy of) its argument: ptrTo(o.Value)
+				if call, ok := v.(*ssa.Call); ok && len(call.Call.Args) == 1 {
+					if h := m.callee(call.Common()); h != nil && addrOfParamFn(h) {
+						if okp, why := pureFrom(call.Call.Args[0], isValue); !okp {
+							badG = "the value returned is computed through " + why
+						}
+						continue
+					}
+				}
 				al, ok := v.(*ssa.Alloc)
 				if !ok {
 					badG = "Get does not return a pointer to a local copy of the value"
@@ -1110,10 +1123,7 @@ func ruleV7(c *Ctx) {
 				}
 				for _, rr := range *al.Referrers() {
 					if st, ok := rr.(*ssa.Store); ok && st.Addr == ssa.Value(al) {
-						okp, why := pureFrom(st.Val, func(x ssa.Value) bool {
-							fa, ok := x.(*ssa.FieldAddr)
-							return ok && fa.X == ssa.Value(g.Params[0]) && fieldName(fa.X.Type(), fa.Field) == "Value"
-						})
+						okp, why := pureFrom(st.Val, isValue)
 						if !okp {
 							badG = "the value returned is computed through " + why
 						}
@@ -1123,4 +1133,34 @@ func ruleV7(c *Ctx) {
 		}
 		c.ok("V7", "get/"+wt, g.Pos(), badG == "", wt+".Get returns exactly the wrapped value", badG)
 	}
+}
+
+// addrOfParamFn: h(v T) *T { return &v } — every return is the cell its one parameter was spilled into.
+func addrOfParamFn(h *ssa.Function) bool {
+	if h == nil || len(h.Blocks) == 0 || len(h.Params) != 1 {
+		return false
+	}
+	rets := returnsOf(h)
+	for _, r := range rets {
+		if len(r.Results) != 1 {
+			return false
+		}
+		al, ok := r.Results[0].(*ssa.Alloc)
+		if !ok {
+			return false
+		}
+		n := 0
+		for _, rr := range *al.Referrers() {
+			if st, ok := rr.(*ssa.Store); ok && st.Addr == ssa.Value(al) {
+				if st.Val != ssa.Value(h.Params[0]) {
+					return false
+				}
+				n++
+			}
+		}
+		if n != 1 {
+			return false
+		}
+	}
+	return len(rets) > 0
 }
